@@ -135,10 +135,14 @@ const (
 	tplSetAccountMeta
 	tplTwoSends
 	tplRaw
+	tplOrderedVars
+	tplArith
+	tplPortionVar
+	tplMetaVar
 	numTpl
 )
 
-var tplNames = []string{"lit", "var", "meta", "ordered", "max", "odb", "odu", "all", "bal", "world", "split", "setacctmeta", "two", "raw"}
+var tplNames = []string{"lit", "var", "meta", "ordered", "max", "odb", "odu", "all", "bal", "world", "split", "setacctmeta", "two", "raw", "orderedvars", "arith", "portionvar", "metavar"}
 
 var assetNames = []string{"USD", "EUR/2"}
 
@@ -197,6 +201,21 @@ func scriptFor(op *Op) (plain string, vars map[string]string) {
 		fmt.Fprintf(&sb, "send [%s %s] (\n\tsource = @world\n\tdestination = @%s\n)\nset_account_meta(@%s, \"src\", @%s)\nset_tx_meta(\"via\", \"script\")\n", a, amt, d, cfgAccount, s)
 	case tplTwoSends:
 		fmt.Fprintf(&sb, "send [%s %s] (\n\tsource = @%s\n\tdestination = @%s\n)\nsend [%s %s] (\n\tsource = @%s\n\tdestination = @%s\n)\n", a, amt, s, d, a, amt, d, d2)
+	case tplOrderedVars:
+		// one text, many bindings (a variable may be bound to world): the compiled program is
+		// shared through the cache by requests that name different accounts
+		sb.WriteString("vars {\n\taccount $s\n\taccount $s2\n\taccount $d\n\tmonetary $m\n}\nsend $m (\n\tsource = {\n\t\t$s\n\t\t$s2\n\t}\n\tdestination = $d\n)\n")
+		vars["s"], vars["s2"], vars["d"], vars["m"] = s, s2, d, a+" "+amt
+	case tplArith:
+		// fixed text, the varying part travels in a variable: monetary arithmetic on a literal
+		fmt.Fprintf(&sb, "vars {\n\tmonetary $fee\n}\nsend [%s 5] + $fee (\n\tsource = @world\n\tdestination = @%s\n)\n", a, d)
+		vars["fee"] = a + " " + amt
+	case tplPortionVar:
+		fmt.Fprintf(&sb, "vars {\n\tportion $p\n\tmonetary $m\n}\nsend $m (\n\tsource = @world\n\tdestination = {\n\t\t$p to @%s\n\t\tremaining to @%s\n\t}\n)\n", d, d2)
+		vars["p"], vars["m"] = []string{"1/2", "1/3", "25%", "0%", "100%", "3/7"}[mod(op.Src, 6)], a+" "+amt
+	case tplMetaVar:
+		fmt.Fprintf(&sb, "vars {\n\tstring $v\n\taccount $acc\n\tmonetary $m\n}\nsend $m (\n\tsource = @world\n\tdestination = $acc\n)\nset_tx_meta(\"note\", $v)\nset_account_meta($acc, \"note\", $v)\n")
+		vars["v"], vars["acc"], vars["m"] = "v"+cp, d, a+" "+amt
 	case tplRaw:
 		sb.WriteString(op.Raw)
 	default:
